@@ -145,7 +145,7 @@ class Gen:
                 i += 1
         return '\n'.join(self.lines) + '\n'
 
-    def load(self, path, as_stub=False):
+    def load(self, path, as_stub=False, skip=()):
         """Read a .vu file, expanding `//@ include <file> [as_stub]` (as_stub turns every `fn`
         directive of the included file into `stub`, so the same contract text is proved in one
         unit and assumed in another)."""
@@ -156,12 +156,27 @@ class Gen:
                 if s.startswith('//@ include '):
                     d = s.split()
                     inc = os.path.join(os.path.dirname(self.unit_path), d[2])
-                    out += self.load(inc, as_stub=as_stub or 'as_stub' in d[3:])
+                    sk = tuple(x for t in d[3:] if t.startswith('skip=') for x in t[5:].split(','))
+                    out += self.load(inc, as_stub=as_stub or 'as_stub' in d[3:], skip=skip + sk)
+                elif skip and (s.startswith('//@ fn ') or s.startswith('//@ stub ')) and \
+                        ('%s::%s' % (s.split()[3], s.split()[4]) in skip or s.split()[4] in skip):
+                    out.append('//@ skipblock')
                 elif as_stub and s.startswith('//@ fn '):
                     out.append(ln.replace('//@ fn ', '//@ stub ', 1))
                 else:
                     out.append(ln)
-        return out
+        res = []
+        skipping = False
+        for ln in out:
+            if ln.strip() == '//@ skipblock':
+                skipping = True
+                continue
+            if skipping:
+                if ln.strip() == '//@ end':
+                    skipping = False
+                continue
+            res.append(ln)
+        return res
 
     # ------------------------------------------------------------------
     def strip_prefix(self, item, keep_derive=True, strip_derive=()):
